@@ -347,9 +347,8 @@ func coqBool(b bool) string {
 func coqRestr(res parser.LabelRestriction) string {
 	v := "None"
 	if res.MustHaveOneOfValues != nil {
-		vs := handles(res.MustHaveOneOfValues)
-		sort.Strings(vs)
-		v = "(Some " + coqBytesList(vs) + ")"
+		// in the order the implementation holds them (the model reproduces the order)
+		v = "(Some " + coqBytesList(handles(res.MustHaveOneOfValues)) + ")"
 	}
 	return fmt.Sprintf("{| r_present := %s; r_absent := %s; r_vals := %s |}", coqBool(res.MustBePresent), coqBool(res.MustBeAbsent), v)
 }
